@@ -140,8 +140,11 @@ def run(c, facts, tier):
                 unk = list(p.row.get("unknown") or [])
                 # a closure handed to a combinator (`unwrap_or_else(|| self.open_port(..))`) is an opaque term for the path
                 # interpreter: whatever its body allocates, stores or fails to store is invisible here — fail closed (seed C16/AE)
-                if "<closure>" in (p.cond or "") + " ".join(p.row.get("effects") or []):
-                    unk.append("a closure whose body is not followed decides the port record of this path")
+                # — only where the closure's result is the (port, mutex) record itself: a pure closure elsewhere on the path
+                # (`terminator.map(|c| c as u8)`) hides no allocation
+                rec_terms = re.findall(r"%lf3:(?:port|mutex):\{([^{}]*)\}", " ".join(t for _f, t, _t, _fm in p.pushes)) + re.findall(r"self\.printers\.get\(\((.*?),@\d\)\)", p.cond or "")
+                if any("<closure>" in t for t in rec_terms):
+                    unk.append("a closure whose body is not followed yields the (port, mutex) record of this path")
                 if unk:
                     c.ob("C16.delegation", site, "path fully modelled [%s]" % (p.cond or "")[:50], False, "the path contains constructs the interpreter cannot follow (%s): which mutex protects the port on later calls is not decided" % unk[:2], witness="-print -print -print (three stdout printers)")
                 mut = [t for fld, t, toks, forms in p.pushes if "(make-mutex)" in t]
